@@ -30,5 +30,10 @@ fixed("C11","R20:scalarwrap:ops.ConvertTensorDtype#8","2e7bd3e","Cast of tensor.
 fixed("C10","R18:mul-by-mask:ops.ReLU#1","533382f","Relu(-Inf) = NaN (ReLU computed as X * (X > 0))")
 fixed("C06","R18:mul-by-mask:ops.ReLU#1","533382f","RNN/GRU/LSTM with a relu activation: -Inf pre-activation gives NaN")
 fixed("C10","R20:scalarwrap:opset13.calcPRelu#1","a32be8b","PRelu of a rank-0 tensor returned 'type assert error: expected numeric list, got float32' (keys #1..#3)")
+fixed("C05","R11:K2:(*opset13.Conv).applyConv2D:axis1","a566fe4","2x4 image, 1x1 kernel: output columns 2,3 stayed 0 (width loop bounded by the padded height)")
+fixed("C05","R11:K1:(*opset13.Conv).setPaddingWithAutoPad#1","8c885fd","x 1x1x6x6, 3x3 kernel, strides 2,2, auto_pad=SAME_UPPER: pads computed from N and C instead of H and W ([14 30 42 75..] instead of [63 81 63 171..])")
+fixed("C05","R11:K4:autopad:unknown-refused","1248e3a","auto_pad=BOGUS was computed as SAME_UPPER")
+fixed("C05","R21:attr-state:Conv","5448d1e","Conv.Apply stored input-derived defaults (pads, strides, dilations, kernel shape) in the operator: a second Apply on inputs of another rank reused them")
+known("C05","R11:K4:autopad:SAME_UPPER~VALID","auto_pad=VALID is computed with the SAME_UPPER padding (1x1x4x4 input, 3x3 kernel: output 4x4 instead of 2x2); TestConv and TestSetPaddingWithAutoPad pin the SAME_UPPER result for VALID, so no repair passes the unedited suite (demo: findings/c05_test.go)")
 json.dump(F,open('/verif/known_findings.json','w'),indent=1)
 print(len(F),"entries")
